@@ -119,6 +119,17 @@ Proof.
     apply nth_error_None in Nth. lia.
 Qed.
 
+Theorem files_load_terminates : forall fs root fuel,
+  (length fs < fuel)%nat ->
+  snd (load_texts fuel fs root) <> TOutOfFuel /\
+  (forall p, snd (load_texts fuel fs root) <> THazard p) /\
+  (forall fuel', (length fs < fuel')%nat -> load_texts fuel' fs root = load_texts fuel fs root).
+Proof.
+  intros fs root fuel B. split; [apply load_texts_fuel; exact B|]. split.
+  - intro p. apply loadt_no_hazard.
+  - intros fuel' B'. apply load_texts_stable; assumption.
+Qed.
+
 (* for every file system of texts and every root, with a loader budget beyond the number of
    files and a query budget beyond some bound: a result or an error *)
 Theorem files_pipeline_total : forall choose o fs root,
@@ -202,8 +213,6 @@ Proof.
   unfold run_files. rewrite E1, E2. apply run_loaded_same. rewrite M1, M2. exact S.
 Qed.
 
-Definition no_includes (es : list s_entry) : Prop := forall w, ~ In (SInclude w) es.
-
 Lemma cut_text_entries_flat : forall fs cp es, no_includes es -> cut_text_entries fs cp es es.
 Proof.
   intros fs cp. induction es as [|e r IH]; intro H; [constructor|].
@@ -257,6 +266,35 @@ Proof.
   - eapply same_meaning_trans; [apply same_meaning_sym; exact M|exact S].
 Qed.
 
+(* files that are PRINTED entry lists (`format`): the entries a file was printed from may be
+   used in the place of what its text parses to — the cut is the same up to same_meaning.
+   With CTL_cons / CTE_inc this builds the cut of a tree of printed files bottom-up. *)
+Lemma cut_text_entries_same : forall fs cp es L, cut_text_entries fs cp es L ->
+  forall es', same_meaning es es' -> exists L', cut_text_entries fs cp es' L' /\ same_meaning L L'.
+Proof.
+  intros fs cp es L H. induction H as [cp|cp e r L Ne Hr IH|cp w r ps L1 L2 S Hl Hr IH]; intros es' M.
+  - inversion M; subst. exists []. split; constructor.
+  - inversion M as [|x e' xs r' He Hm]; subst. destruct (IH r' Hm) as [L' [C' M']].
+    exists (e' :: L'). split; [|constructor; assumption].
+    apply CTE_ent; [|exact C'].
+    destruct (is_include_cases e') as [[w E]|E]; [|exact E].
+    apply (same_entry_include _ _ He w) in E. subst e. discriminate.
+  - inversion M as [|x e' xs r' He Hm]; subst. simpl in He. subst e'.
+    destruct (IH r' Hm) as [L' [C' M']].
+    exists (L1 ++ L'). split; [apply CTE_inc with (ps := ps); assumption|].
+    apply Forall2_app; [apply same_meaning_refl|exact M'].
+Qed.
+
+Theorem cut_text_printed_file : forall w fs p es L,
+  wf_ledger es = true -> In (canonicalize p, format_entries w es) fs ->
+  cut_text_entries fs (canonicalize p) es L ->
+  exists L', cut_text_of fs p L' /\ same_meaning L L'.
+Proof.
+  intros w fs p es L WL Hin C. destruct (format_roundtrip w es WL) as [pes [R M]].
+  destruct (cut_text_entries_same _ _ _ _ C _ M) as [L' [C' M']].
+  exists L'. split; [|exact M']. apply CT_file with (text := format_entries w es) (pes := pes); assumption.
+Qed.
+
 (* cut_text_of is Model/LoadSpec.v's cut_of on the parsed file system, with the ids resolved *)
 Theorem cut_text_is_cut : forall fs root L, wf_tfs fs -> cut_text_of fs root L ->
   exists out, cut_of (parse_fs fs) root (map snd out) /\ Forall2 (resolves fs) out L.
@@ -269,16 +307,6 @@ Qed.
 
 Lemma parsed_of_result : forall text, parsed_of text = result_entries (parse_ledger text).
 Proof. intro text. unfold parsed_of, result_entries. destruct (parse_ledger text); reflexivity. Qed.
-
-(* what a delivered entry carries *)
-Definition placed (fs : tfs) (l : loaded) : Prop :=
-  exists text pre mid post,
-    tlookup (l_path l) fs = Some text /\
-    nth_error (result_entries (parse_ledger text)) (N.to_nat (l_index l)) = Some (l_parsed l) /\
-    is_include (e_entry (l_parsed l)) = false /\
-    text = pre ++ mid ++ post /\
-    e_span (l_parsed l) = (utf8_len pre, utf8_len pre + utf8_len mid)%N /\
-    e_line_start (l_parsed l) = (1 + count_lf pre)%N.
 
 Theorem path_is_containing_file : forall fuel fs root l,
   In l (fst (load_texts fuel fs root)) -> placed fs l.
